@@ -249,6 +249,8 @@ func universes(thorough bool) []*universe {
 		{"single4-share", mkSvc(share("k1"))},
 		{"require-noclusterips", mkSvc(families(v1.IPFamilyPolicyRequireDualStack, "192.168.9.1"))},
 		{"no-clusterip", mkSvc(noClusterIP())},
+		// PreferDualStack on a cluster that gave the service one family only
+		{"prefer-one-clusterip", mkSvc(families(v1.IPFamilyPolicyPreferDualStack, "192.168.9.1"))},
 	}
 	dualSlotVs := map[int][]int{2: {0, 3}}
 	if thorough {
